@@ -12,11 +12,13 @@ DEFAULT_PROFILE = {
     "p_cli_select": 0.3, "p_cli_disable": 0.25, "p_cli_define": 0.3, "p_cli_builders": 0.3, "p_cli_apps": 0.3,
     "p_partition": 0.0, "p_local": 0.0, "p_escape": 0.08, "p_expr": 0.1, "p_postlink": 0.15, "p_srcdir": 0.1,
     "p_removes": 0.1, "p_notify_all": 0.05, "p_nobindir": 0.0, "p_include": 0.1, "p_bad": 0.0,
+    "p_cycle": 0.02, "p_same_override": 0.15, "p_hard_missing": 0.03, "p_app_elsewhere": 0.25,
 }
 
 VARS = ["CFLAGS", "DEFS", "OPT", "X", "LIBS"]
-SINGLES = ["-O1", "v${X}", "lit", "${relpath}/inc", "a b", "${OPT}x", "é", "-I${srcdir}", "${root}/r"]
-ELEMS = ["-Da", "-Db", "${OPT}", "-I${srcdir}", "", "x", "-l${X}", "${relpath}"]
+# a variable only refers to variables later in VARS (no accidental cycles); p_cycle adds deliberate ones
+SINGLES = ["-O1", "lit", "${relpath}/inc", "a b", "é", "-I${srcdir}", "${root}/r"]
+ELEMS = ["-Da", "-Db", "-I${srcdir}", "", "x", "${relpath}"]
 FEATURES = ["f0", "f1", "f2"]
 
 
@@ -37,18 +39,22 @@ class Gen:
     def env(self, density=None):
         rng = self.rng
         env = {}
-        for v in VARS:
+        for vi, v in enumerate(VARS):
             if rng.random() < (density if density is not None else self.p["p_env"]):
                 r = rng.random()
+                later = VARS[vi + 1:]
+                ref = ("${" + rng.choice(later) + "}") if later else "z"
+                if self.chance("p_cycle"):
+                    ref = "${" + rng.choice(VARS[:vi + 1]) + "}"
                 if r < 0.45:
-                    s = rng.choice(SINGLES)
+                    s = rng.choice(SINGLES + ["v" + ref, ref + "x"])
                     if self.chance("p_escape"):
                         s = "lit \\${OPT} end"
                     if self.chance("p_expr"):
                         s = rng.choice(["$(1+2)", "n$(2*3)", "$$(x)", "$(max(1,2))"])
                     env[v] = s
                 else:
-                    env[v] = [rng.choice(ELEMS) for _ in range(rng.randint(0, 3))]
+                    env[v] = [rng.choice(ELEMS + [ref, "-l" + ref]) for _ in range(rng.randint(0, 3))]
         return env
 
     def deps(self, names, kmax=3):
@@ -58,7 +64,7 @@ class Gen:
             if not self.chance("p_dep"):
                 continue
             n = rng.choice(names)
-            if self.chance("p_soft"):
+            if self.chance("p_soft") or (n == "nosuch" and not self.chance("p_hard_missing")):
                 n = "?" + n
             if self.chance("p_ifthen"):
                 cond = rng.choice(names)
@@ -107,6 +113,7 @@ class Gen:
         if self.chance("p_postlink"):
             base_rules.append({"name": "POST_LINK", "in": "elf", "out": "bin", "cmd": "objcopy ${in} ${out}"})
         denv = self.env(0.5)
+        denv["SV"] = "s1"
         if not self.chance("p_nobindir"):
             denv["bindir"] = "${build-dir}/out/${builder}/${app}"
         default = {"name": "default", "env": denv, "rules": base_rules}
@@ -134,7 +141,8 @@ class Gen:
             if e:
                 c["env"] = e
             if self.chance("p_rules_override"):
-                r = {"name": "CC", "in": "c", "out": "o", "cmd": f"cc-{c['name']} ${{CFLAGS}} ${{DEFS}} -c ${{in}} -o ${{out}}"}
+                tag = "ovr" if self.chance("p_same_override") else c["name"]
+                r = {"name": "CC", "in": "c", "out": "o", "cmd": f"cc-{tag} ${{CFLAGS}} ${{DEFS}} -c ${{in}} -o ${{out}}"}
                 if self.chance("p_nonshare"):
                     r["shareable"] = False
                 if self.chance("p_always"):
@@ -187,7 +195,7 @@ class Gen:
         apps = []
         na = rng.randint(*P["n_apps"])
         for i in range(na):
-            a = self.module(f"a{i}", [rng.choice(["default"] * 3 + cnames)], dep_names, mod_names, app=True)
+            a = self.module(f"a{i}", [rng.choice(cnames) if self.chance("p_app_elsewhere") else "default"], dep_names, mod_names, app=True)
             apps.append(a)
         # distribute over files
         files = {"laze-project.yml": [{"contexts": contexts, "builders": builders}]}
@@ -299,7 +307,7 @@ class Gen:
         if rng.random() < 0.15:
             srcs.append("asm/" + name + ".S")
         if rng.random() < 0.1:
-            srcs.append("${OPT}v.c")
+            srcs.append("${SV}v.c")
         if self.chance("p_optsrc"):
             om = {rng.choice(mod_names): [f"{name}_opt.c"]}
             if rng.random() < 0.3:
@@ -339,7 +347,7 @@ class Gen:
                 m["is_global_build_dep"] = True
             if self.chance("p_notify_all"):
                 m["notify_all"] = True
-        if self.chance("p_srcdir"):
+        if self.chance("p_srcdir") and "download" not in m:
             m["srcdir"] = rng.choice(["other", "${relpath}/s", "x/y"])
         if app:
             m["_app"] = True
